@@ -127,7 +127,7 @@ func (x *Exec) invoke(fr *Frame, ins ssa.Instruction, c *ssa.CallCommon, st *Sta
 		args := append([]Value{recv}, x.argVals(fr, c)...)
 		return x.useContract(fr, ins, ic, args, st)
 	}
-	if countLeaves(recv, 0) <= 16 {
+	if countLeaves(recv, 0) <= 16 && !(x.target != nil && contains(x.target.Opaque, c.Method.Name()) && x.specDepth == 0) {
 		if v, ok := x.dispatch(fr, ins, c, recv, x.argVals(fr, c), st); ok {
 			return v
 		}
